@@ -47,6 +47,7 @@ GFA1 = {
     "k1": ("# a comment", []),
     "k2": ("# padded with blanks  ", []),
     "t3": ("S\tY\t*\tnt:Z:ends with a blank ", []),            # the last field of a line may end with white space
+    "t4": ("S\tQ\t*\tau:J:{\"name\": \"M\\u00fcller\", \"k\": [\"\\u4e2d\", null]}", []),        # JSON text with escapes of non-ASCII characters (all printable ASCII as written)
     "t1": ("S\tD\tACGT\tLN:i:4\tRC:i:12\tab:Z:str\tcd:J:[1, 2]\tef:H:1A2B\tgh:B:c,1,-2\tij:A:x\tkl:f:0.25", []),
 }
 GFA2 = {
@@ -103,6 +104,7 @@ GFA2 = {
     "k1": ("# a comment", []),
     "k2": ("# padded with blanks  ", []),
     "t3": ("S\tY\t8\t*\tnt:Z:ends with a blank ", []),
+    "t4": ("S\tQ\t8\t*\tau:J:{\"name\": \"M\\u00fcller\", \"k\": [\"\\u4e2d\", null]}", []),
     "t1": ("S\tD\t4\tACGT\tRC:i:12\tab:Z:str\tcd:J:[1, 2]\tef:H:1A2B\tgh:B:c,1,-2\tij:A:x\tkl:f:0.25", []),
 }
 CAT = {"gfa1": GFA1, "gfa2": GFA2}
